@@ -136,3 +136,9 @@ Proof. repeat split; reflexivity. Qed.
 From SymfcG Require Import ShapesApi SkelApi.
 Theorem c05_facade_in_force : ShapesApi_as_recorded = true /\ SkelApi_as_recorded = true.
 Proof. repeat split; reflexivity. Qed.
+
+(** The rest of the code path of this property's statement (exact recovery needs the complete basis: every stage of the basis construction) is the recorded source: whole-function / skeleton match,
+    regenerated on every run. *)
+From SymfcG Require Import ShapesCombos ShapesPerm ShapesCoset ShapesSumRule ShapesSpg ShapesReps ShapesBasis ShapesO1 ShapesAuxO1 ShapesAuxEig ShapesAuxBatch ShapesGeom ShapesAuxCut SkelSpg SkelBasis SkelEig SkelMat SkelPerm SkelIdx SkelCut.
+Theorem c05_code_path_in_force : ShapesCombos_as_recorded = true /\ ShapesPerm_as_recorded = true /\ ShapesCoset_as_recorded = true /\ ShapesSumRule_as_recorded = true /\ ShapesSpg_as_recorded = true /\ ShapesReps_as_recorded = true /\ ShapesBasis_as_recorded = true /\ ShapesO1_as_recorded = true /\ ShapesAuxO1_as_recorded = true /\ ShapesAuxEig_as_recorded = true /\ ShapesAuxBatch_as_recorded = true /\ ShapesGeom_as_recorded = true /\ ShapesAuxCut_as_recorded = true /\ SkelSpg_as_recorded = true /\ SkelBasis_as_recorded = true /\ SkelEig_as_recorded = true /\ SkelMat_as_recorded = true /\ SkelPerm_as_recorded = true /\ SkelIdx_as_recorded = true /\ SkelCut_as_recorded = true.
+Proof. repeat split; reflexivity. Qed.
